@@ -2,6 +2,7 @@ SPECIFICATION Spec
 CONSTANTS
   MaxRows = 4
   Depth = 2
+  Ordered = FALSE
   TypeNames = {"Bool", "Opt", "One", "Pair", "Unit", "Empty"}
 INVARIANTS Agree WitnessSound WitnessComplete ArmAlwaysFound RowOrderIrrelevant Report
 CHECK_DEADLOCK FALSE
